@@ -58,6 +58,11 @@ def main(argv):
         if anchors and telemetry.STATE['attached']:
             ctx.monitor['reach'] = telemetry.reach(anchors())
         ctx.monitor['telemetry_lines'] = len(telemetry.lines)
+        dump = os.environ.get('VERIF_LINEDUMP')
+        if dump:   # tools/linegaps.py: which source lines did the workloads never reach
+            os.makedirs(dump, exist_ok=True)
+            with open(os.path.join(dump, '%s-%s-%s.json' % (prop, tier, shard)), 'w') as f:
+                json.dump(sorted(telemetry.lines), f)
         ctx.monitor['attached'] = attached
     except Exception as e:
         ctx.notes.append('monitor stats failed: %r' % (e,))
